@@ -31,8 +31,9 @@ def parts(x):
 
 
 class Comp:
-    def __init__(self, name, site, f, members, item_dims=1, others=None, float_out=False, grouping=True, cfg=None, line=None, int_dtypes=False, group_rows=None):
+    def __init__(self, name, site, f, members, item_dims=1, others=None, float_out=False, grouping=True, cfg=None, line=None, int_dtypes=False, group_rows=None, fresh=None):
         self.name, self.site, self.f, self.members = name, site, f, members
+        self.fresh = fresh                    # optional factory of a pristine component: the per-member reference is then computed on a new object each time
         self.int_dtypes = int_dtypes          # hard bit inputs: the same answer for int32 / int64 tensors, which must stay untouched
         self.group_rows = group_rows          # extra (B, m*n) row compositions (lists of member indices) for special paths
         self.item_dims, self.float_out, self.grouping = item_dims, float_out, grouping
@@ -65,7 +66,11 @@ def check_component(ctx, comp, ops):
     singles = []
     for m in M:
         try:
-            singles.append([p_[0] for p_ in f(m.unsqueeze(0).clone())])
+            if comp.fresh is not None:
+                fr_ = comp.fresh()
+                singles.append([p_[0] for p_ in parts(quiet(fr_, m.unsqueeze(0).clone()))])
+            else:
+                singles.append([p_[0] for p_ in f(m.unsqueeze(0).clone())])
         except ERRS as e:
             rec("single", False, error="%s: %s" % (type(e).__name__, str(e)[:120]))
             return
@@ -197,14 +202,36 @@ def fec_components(ctx):
             comps.append(Comp("BruteForceMLDecoder", "fec.decoders:BruteForceMLDecoder", D_.BruteForceMLDecoder(enc), words, cfg=cfg, int_dtypes=True, line=lambda row, nm=name: "ml %s %s" % (nm, bstr(row.tolist()))))
         elif kind == "syn":
             comps.append(Comp("SyndromeLookupDecoder(return_errors)", "fec.decoders:SyndromeLookupDecoder", (lambda w_, dd_=D_.SyndromeLookupDecoder(enc): dd_(w_, return_errors=True)), words, cfg=cfg))
-            comps.append(Comp("SyndromeLookupDecoder", "fec.decoders:SyndromeLookupDecoder", D_.SyndromeLookupDecoder(enc), words, cfg=cfg, int_dtypes=True, line=lambda row, nm=name: "syndec %s %s" % (nm, bstr(row.tolist()))))
+            comps.append(Comp("SyndromeLookupDecoder", "fec.decoders:SyndromeLookupDecoder", D_.SyndromeLookupDecoder(enc), words, cfg=cfg, int_dtypes=True, fresh=lambda enc=enc: D_.SyndromeLookupDecoder(enc), line=lambda row, nm=name: "syndec %s %s" % (nm, bstr(row.tolist()))))
         elif kind == "bm":
-            comps.append(Comp("BerlekampMasseyDecoder", "fec.decoders:BerlekampMasseyDecoder", D_.BerlekampMasseyDecoder(enc), words, cfg=cfg, int_dtypes=True))
+            comps.append(Comp("BerlekampMasseyDecoder", "fec.decoders:BerlekampMasseyDecoder", D_.BerlekampMasseyDecoder(enc), words, cfg=cfg, int_dtypes=True, fresh=lambda enc=enc: D_.BerlekampMasseyDecoder(enc)))
             comps.append(Comp("BerlekampMasseyDecoder(return_errors)", "fec.decoders:BerlekampMasseyDecoder", (lambda w_, dd_=D_.BerlekampMasseyDecoder(enc): dd_(w_, return_errors=True)), words, cfg=cfg))
         elif kind == "reed":
-            comps.append(Comp("ReedMullerDecoder", "fec.decoders:ReedMullerDecoder", D_.ReedMullerDecoder(enc), words, cfg=cfg, int_dtypes=True))
+            comps.append(Comp("ReedMullerDecoder", "fec.decoders:ReedMullerDecoder", D_.ReedMullerDecoder(enc), words, cfg=cfg, int_dtypes=True, fresh=lambda enc=enc: D_.ReedMullerDecoder(enc)))
             comps.append(Comp("ReedMullerDecoder(return_errors)", "fec.decoders:ReedMullerDecoder", (lambda w_, dd_=D_.ReedMullerDecoder(enc): dd_(w_, return_errors=True)), words, cfg=cfg))
             comps.append(Comp("ReedMullerDecoder(soft)", "fec.decoders:ReedMullerDecoder", D_.ReedMullerDecoder(enc, input_type="soft"), [(1 - 2 * w) * rng.uniform(0.5, 3.0) for w in words], cfg=cfg))
+    # Berlekamp-Massey on words that share their first syndrome S_1 but not S_3: a single error at p next to double errors at (q, r) with
+    # alpha^q + alpha^r = alpha^p - whatever a decoder remembers about one of them must not leak into the other (batch mates, call order)
+    for (mu_, delta_) in ((4, 5), (4, 7)):
+        try:
+            be = E_.BCHCodeEncoder(mu=mu_, delta=delta_)
+            F_ = be._field; al = F_.primitive_element(); nb = be.code_length; kb = be.code_dimension
+            mem = []
+            for p_ in (0, 3, 7):
+                pairs = [(q_, r_) for q_ in range(nb) for r_ in range(q_ + 1, nb) if (al ** q_ + al ** r_) == al ** p_]
+                cwp = be(torch.tensor([[rng.getrandbits(1) for _ in range(kb)]], dtype=torch.float32))[0]
+                w1 = cwp.clone(); w1[p_] = 1 - w1[p_]; mem.append(w1)
+                for (q_, r_) in pairs[:2]:
+                    cwq = be(torch.tensor([[rng.getrandbits(1) for _ in range(kb)]], dtype=torch.float32))[0]
+                    w2 = cwq.clone(); w2[q_] = 1 - w2[q_]; w2[r_] = 1 - w2[r_]; mem.append(w2)
+            mem = mem[:8]
+            cfgb = {"code": "BCH(mu=%d, delta=%d)" % (mu_, delta_), "n": nb, "k": kb, "members": "equal S_1, different S_3"}
+            comps.append(Comp("BerlekampMasseyDecoder", "fec.decoders:BerlekampMasseyDecoder", D_.BerlekampMasseyDecoder(be), mem, cfg=cfgb, int_dtypes=True,
+                              fresh=lambda be=be: D_.BerlekampMasseyDecoder(be)))
+            comps.append(Comp("BerlekampMasseyDecoder(return_errors)", "fec.decoders:BerlekampMasseyDecoder", (lambda w_, dd_=D_.BerlekampMasseyDecoder(be): dd_(w_, return_errors=True)), mem, cfg=cfgb,
+                              fresh=lambda be=be: (lambda w_, dd_=D_.BerlekampMasseyDecoder(be): dd_(w_, return_errors=True))))
+        except Exception as e_:
+            ctx.notes.append("BM collision members not built: %s: %s" % (type(e_).__name__, e_))
     # soft-input decoders
     spc = E_.SingleParityCheckCodeEncoder(4)
     soft = lambda enc, kk: [(1 - 2 * enc(torch.tensor([[rng.getrandbits(1) for _ in range(kk)]], dtype=torch.float32))[0]) * torch.tensor([rng.uniform(0.3, 4.0) * (1 if rng.random() > 0.15 else -0.2) for _ in range(enc.code_length)]) for _ in range(8)]
